@@ -1064,7 +1064,7 @@ def mpc_agm(a, b, prec, rnd=round_fast):
         size = mpf_min_max([mpc_abs(a,10), mpc_abs(b,10)])[1]
         err = mpc_abs(mpc_sub(a, b, 10), 10)
         if size == fzero or mpf_lt(err, mpf_mul(eps, size)):
-            return a
+            return mpc_pos(a, prec, rnd)
 
 def mpc_agm1(a, prec, rnd=round_fast):
     return mpc_agm(mpc_one, a, prec, rnd)
